@@ -14,7 +14,8 @@ Schemes == {"pc_taylor", "pc_rk4", "pc_rk", "ps", "ps2", "vmf", "mu_vmf", "cmf"}
 RkSingle == IF Wide THEN {"Forward_Euler", "midpoint_RK2", "Heun_RK2", "Ralston_RK2", "Kutta_RK3", "C_RK4", "38rule_RK4", "Fehlberg5"}
             ELSE {"Heun_RK2", "Kutta_RK3", "C_RK4", "Fehlberg5"}
 RkPair == {"RKF45", "Cash-Karp45"}
-Gauges == {"fresh", "cano1", "moved", "skew"}    \* "skew": a non-isometric gauge (X, X^-1 inserted on a bond): flags say left-canonical, tensors are not
+Gauges == {"fresh", "cano1", "moved", "skewL", "skewR"}    \* skew: a non-isometric gauge (X, X^-1 inserted on a bond) under flags that claim
+                                                           \* left-canonical (centre at the end, to_right = FALSE) / right-canonical (centre 0, to_right = TRUE)
 
 Cfg == [scheme : Schemes, solver : {"krylov", "RK45"}, adaptive : BOOLEAN, imag : BOOLEAN, rk : RkSingle \cup RkPair,
         cmf : {"first", "mid", "trapz"}, force_ovlp : BOOLEAN, td : BOOLEAN, form : {"mps", "mpdm"}, gauge : Gauges]
@@ -40,7 +41,7 @@ Accepted(c) ==
   /\ (c.adaptive /\ c.scheme = "cmf" => c.gauge = "fresh")
   \* the propagate-and-compress family canonicalises/compresses its input, which ASSERTS that the quantum-number centre sits
   \* at the start of the sweep (mp.py:911): a moved centre is outside their accepted inputs
-  /\ (c.gauge \in {"moved", "skew"} => c.scheme \in {"ps", "ps2", "vmf", "mu_vmf", "cmf"})
+  /\ (c.gauge \in {"moved", "skewL", "skewR"} => c.scheme \in {"ps", "ps2", "vmf", "mu_vmf", "cmf"})
 
 VARIABLES cfg, calls, elapsed
 vars == <<cfg, calls, elapsed>>
@@ -50,7 +51,7 @@ Call(q, sw) == /\ elapsed + q <= T /\ Len(calls) < MaxSplit /\ q >= 1
                /\ (elapsed + q < T => Len(calls) + 1 < MaxSplit)
                /\ calls' = Append(calls, [q |-> q, scheme |-> sw])
                /\ elapsed' = elapsed + q /\ UNCHANGED cfg
-SwitchTargets(c) == IF c.td \/ c.form = "mpdm" \/ c.adaptive \/ c.gauge \in {"moved", "skew"} THEN {c.scheme} ELSE {c.scheme, "ps", "pc_rk4"}
+SwitchTargets(c) == IF c.td \/ c.form = "mpdm" \/ c.adaptive \/ c.gauge \in {"moved", "skewL", "skewR"} THEN {c.scheme} ELSE {c.scheme, "ps", "pc_rk4"}
 Next == \E q \in 1..T, sw \in Schemes : sw \in SwitchTargets(cfg) /\ Call(q, sw)
 Spec == Init /\ [][Next]_vars
 RECURSIVE SumQ(_)
